@@ -690,11 +690,19 @@ func New() Beacon {
 	}
 }
 
-// GetAll returns all the treasures in the beacon
+// GetAll returns all the treasures in the beacon.
+// The returned map is a copy made under the beacon's lock: the caller iterates
+// it after the lock has been released, and iterating the internal map while
+// another request inserts or deletes a key is a data race (the Go runtime
+// aborts the process with "concurrent map iteration and map write").
 func (b *beacon) GetAll() map[string]treasure.Treasure {
 	b.mu.RLock()
 	defer b.mu.RUnlock()
-	return b.treasuresByKeys
+	all := make(map[string]treasure.Treasure, len(b.treasuresByKeys))
+	for key, treasureObj := range b.treasuresByKeys {
+		all[key] = treasureObj
+	}
+	return all
 }
 
 type IterationType int
